@@ -502,11 +502,10 @@ impl UnixStr {
         if next_slash_back == 0 {
             next_slash_back += 1;
         }
-        unsafe {
-            Some(UnixString(
-                self.0.get_unchecked(..=next_slash_back).to_vec(),
-            ))
-        }
+        // Copy up to (not including) the separator, then terminate
+        let mut parent = unsafe { self.0.get_unchecked(..next_slash_back).to_vec() };
+        parent.push(NULL_BYTE);
+        Some(UnixString(parent))
     }
 }
 
